@@ -21,8 +21,9 @@ RULES = {
     'R9': 'a connection whose transport was taken down is not handed to the transport again: every send, sendv, fc_set, q_len_get and dispatch_mod reachable from a public function of ipcs.c is behind a test that the connection is ESTABLISHED or ACTIVE (exemptions: the teardown itself and the poll callback, with reasons)',
     'R10': 'connection_destroyed is called under a guard reference, so that a reference taken and dropped inside it does not destroy the connection a second time',
     'R11': 'what can fault comes last under the SIGBUS guard: in the transport disconnect that sets a jump target for SIGBUS, for every connection state, no deregistration or close of the connection\'s descriptor follows a ring close in the same call (a ring file the client truncated makes the close jump to the end: the descriptor would stay in the main loop, dispatching to a connection that is then destroyed)',
+    'R12': 'a registration that fails half-way takes the first half back: where a transport registers two descriptors of a connection with the main loop, the failure of the second registration is followed by dispatch_del of the first on every path - the connection is freed right after, and the main loop would keep a (closed) descriptor that dispatches to it',
 }
-FLOORS = {'R11': 4, 'R1': 24, 'R2': 4, 'R3': 9, 'R4': 8, 'R5': 2, 'R6': 5, 'R7': 6, 'R8': 3, 'R9': 6, 'R10': 1}
+FLOORS = {'R12': 1, 'R11': 4, 'R1': 24, 'R2': 4, 'R3': 9, 'R4': 8, 'R5': 2, 'R6': 5, 'R7': 6, 'R8': 3, 'R9': 6, 'R10': 1}
 
 CB = ('connection_accept', 'connection_created', 'msg_process', 'connection_closed', 'connection_destroyed')
 SLOT = 'qb_ipcs_service_handlers::%s'
@@ -42,6 +43,7 @@ def run(ctx):
     r9(ctx, st)
     r10(ctx)
     r11(ctx, st)
+    r12(ctx)
 
 
 def r1(ctx, st):
@@ -774,3 +776,40 @@ def r11(ctx, st):
                       'state %s: the descriptor is taken out of the main loop before any ring is closed (or only one of the two happens)' % sname,
                       'state %s: %s runs after a ring close in the same call: if the client truncated the ring file the close jumps to the end, the descriptor stays registered and the main loop dispatches to the destroyed connection'
                       % (sname, late[0].callee if late else ''))
+
+
+def r12(ctx):
+    prog = ctx.prog
+    n = 0
+    for f in prog.all_fns(files={'lib/ipc_socket.c', 'lib/ipc_shm.c'}):
+        adds = [st for st in f.events('STORE') if st.rhs is not None and callee_of(unwrap(st.rhs)) == 'qb_ipcs_poll_handlers::dispatch_add']
+        if len(adds) < 2:
+            continue
+        adds = sorted(adds, key=lambda s_: sum(1 for o in adds if f.ev_dominates(o, s_) or (f.may_follow(o, s_) and not f.may_follow(s_, o))))
+        first, later = adds[0], adds[1:]
+        fd1 = estr(unwrap(unwrap(first.rhs)['args'][1]))
+        for a2 in later:
+            rv = estr(a2.lhs)
+            edges = []
+            for b in f.blocks.values():
+                if b.cond is None:
+                    continue
+                for (t, lab) in b.succs:
+                    if lab in (True, False) and any(a.ls == rv and ((a.op == '<' and a.rc == 0) or (a.op == '!=' and a.rc == 0)) for a in atoms_of(b.cond, lab)):
+                        defs, _en = f.reaching_defs(rv, f.end_of(b.id))
+                        if any(d.d is a2.d for d in defs):
+                            edges.append((b, t))
+            if not edges:
+                raise AnalysisBroken('%s: the failure of the second registration is not tested' % f.name)
+            n += 1
+            bad = None
+            for (b, t) in edges:
+                ok, _p = f.must_pass(('edge', b.id, t), lambda ev: ev.kind == 'CALL' and slot_call(ev, 'dispatch_del') and estr(unwrap(ev.args[0])) == fd1)
+                if not ok:
+                    bad = b
+            ctx.check('R12', '%s:second-registration-failure-undoes-the-first' % f.name, bad is None, a2,
+                      'when the second registration fails the first descriptor (%s) is taken out of the main loop again' % fd1,
+                      'when the registration of %s fails, %s stays registered (no dispatch_del on the failure path): the connection is given up and freed, its descriptor closed, and the main loop still holds it with the freed connection as callback data'
+                      % (estr(unwrap(unwrap(a2.rhs)['args'][1])), fd1))
+    if n == 0:
+        raise AnalysisBroken('R12: no transport registers two descriptors')
